@@ -42,13 +42,51 @@ func c09Input(k int) []any {
 		return []any{map[string]any{`$"k{a}"`: 1, "a": "x", "kx": c1, "$env:HOME": 2, "/h": c2}}
 	case 7:
 		return []any{map[string]any{"a": "$required", "b": "$required", "c": c1}}
+	case 8:
+		// $replace: true next to keys an ordinary merge would reject or
+		// change (equal value, kind change, $delete of a missing key)
+		return []any{
+			map[string]any{"svc": map[string]any{"name": c1, "port": 80, "tags": map[string]any{"t": 1}}, "o": 1},
+			map[string]any{"svc": map[string]any{"$replace": true, "name": c2, "port": 80, "tags": "plain"}},
+		}
+	case 9:
+		// several keys of one map are rejected for different reasons
+		return []any{
+			map[string]any{"a": c1, "b": map[string]any{"k": 1}, "c": []any{1}},
+			map[string]any{"a": c2, "b": "scalar", "c": map[string]any{"k": 1}, "d": "$delete"},
+		}
+	case 10:
+		// every directive key a map can carry, side by side with data
+		return []any{map[string]any{
+			"t": map[string]any{"a": 1, "b": c1},
+			"x": map[string]any{"$output": true, "$merge": "u", "$encode": "json", "b": "B", "z": nil},
+			"u": map[string]any{"a": 1, "b": "old"},
+			"y": map[string]any{"$replace": "t", "$output": true, "a": c2},
+			"l": []any{map[string]any{"$repeat": 2, "$output": true, "i": "$repeat", "c": c1}},
+		}}
+	case 11:
+		// $match in a layer: pattern with several keys, $invert, $value
+		return []any{
+			map[string]any{"l": []any{map[string]any{"a": 1, "b": c1, "c": 3}, map[string]any{"a": 1, "b": 2, "c": 4}}},
+			map[string]any{"l": []any{
+				map[string]any{"$match": map[string]any{"a": 1, "b": c2, "c": 3}, "hit": true, "b": "$delete"},
+				map[string]any{"$match": map[string]any{"a": 1, "c": 4, "$invert": true}, "$value": map[string]any{"r": c2, "a": 1}},
+				map[string]any{"$delete": map[string]any{"b": 2, "c": 4}},
+			}},
+		}
+	case 12:
+		// document-level $match against two documents, plus $decode/$encode chains
+		return []any{
+			map[string]any{"kind": c1, "name": "n", "spec": map[string]any{"p": 1, "q": c2}},
+			map[string]any{"$match": map[string]any{"kind": c1, "name": "n"}, "spec": map[string]any{"q": "$delete", "r": map[string]any{"$encode": "json", "u": "U", "v": 1}}},
+		}
 	default:
 		// a $merge whose target lies inside its own host (was C09-K1)
 		return []any{map[string]any{"$merge": "c", "c": map[string]any{"c": map[string]any{"d": c1}, "e": c2}}}
 	}
 }
 
-const c09Inputs = 9
+const c09Inputs = 14
 
 func c09Eval(layers []any) ([]any, bool) {
 	cp := []any{}
